@@ -60,6 +60,9 @@ def run(ctx):
         units = usable if (ctx.thorough() or len(usable) < 30) else rng.sample(usable, 30)
         for d in units:
             add([[d, 1]], 'unit')
+        # one descriptor with a count other than 1 (SE scales with |count|, not with its square root)
+        for d in rng.sample(usable, min(len(usable), ctx.n(6, 40))):
+            add([[d, rng.choice([2, 3, 0.25, -2, -1, 0.5, 10, 0])]], 'single-count')
         for _ in range(ctx.n(12, 200)):
             sel = rng.sample(usable, min(rng.choice([2, 3, 5, 9]), len(usable)))
             mp = [[d, c01.rnd_count(rng)] for d in sel]
@@ -70,10 +73,16 @@ def run(ctx):
             rng.shuffle(p)
             add(p, 'permuted')
         outside = [g['name'] for g in info['groups'] if g['has'] and g['name'] not in basis]
-        for d in outside[:ctx.n(3, 20)]:
-            mp = [[rng.choice(usable), 1], [d, 2]]
-            rng.shuffle(mp)
-            add(mp, 'out-of-basis')
+        # rejected mappings are interleaved with the accepted ones (same library object): a rejected call must leave nothing behind.
+        # The in-basis descriptor comes first in every other one, so that the failure happens after part of the work is done.
+        first = len(jobs) - 1
+        for k, d in enumerate(outside[:ctx.n(3, 20)]):
+            mp = [[rng.choice(usable), rng.choice([1, 2, 3])], [rng.choice(usable), 1], [d, 2]]
+            if k % 2:
+                rng.shuffle(mp)
+            j_ = {'op': 'estimate', 'lib': spec, 'mapping': mp, 'Ts': Ts, 'props': ('cp', 'h', 's'), 'se': True, 'kind': 'out-of-basis'}
+            lo = max(0, first - 60)
+            jobs.insert(rng.randint(lo, len(jobs)), j_)
     if len([s for s in uqs if s in libs]) < 3:
         ctx.broken.append('fewer than three shipped libraries carry uncertainty data')
     jobs.sort(key=lambda j: j['lib'])
